@@ -288,6 +288,7 @@ fn body_variants(base: &Fields, label: &str, n: usize) -> Vec<Case> {
                 out.push(Case { label: format!("{} cl={:?} data=[{},{}eos]", label, cl, a, b), fields: f.clone(), data: vec![(a, false), (b, true)] });
             }
             out.push(Case { label: format!("{} cl={:?} data=[{},0eos]", label, cl, a), fields: f.clone(), data: vec![(a, false), (0, true)] });
+            out.push(Case { label: format!("{} cl={:?} data=[{},trailers]", label, cl, a), fields: f.clone(), data: vec![(a, false), (TRAILERS, true)] });
         }
         // END_STREAM on the head although a body was announced
         out.push(Case { label: format!("{} cl={:?} no data", label, cl), fields: f.clone(), data: vec![] });
@@ -388,10 +389,21 @@ fn read_body(b: &mut h2::RecvStream, panics: &mut Vec<String>) -> (usize, Result
     }
 }
 
+/// a `(TRAILERS, true)` entry ends the message with a (valid) trailer section instead of END_STREAM on DATA
+pub const TRAILERS: usize = usize::MAX;
+
 fn send_data_frames(t: &mut T2, sid: u32, data: &[(usize, bool)]) {
     for (len, eos) in data {
-        t.peer_send(&wf::data(sid, &vec![b'd'; *len], *eos));
+        if *len == TRAILERS {
+            t.peer_send(&wf::headers(sid, &block_raw(&fs(&[("x-trailer", "t")])), true, true));
+        } else {
+            t.peer_send(&wf::data(sid, &vec![b'd'; *len], *eos));
+        }
     }
+}
+
+fn data_total(data: &[(usize, bool)]) -> usize {
+    data.iter().filter(|(l, _)| *l != TRAILERS).map(|(l, _)| *l).sum()
 }
 
 /// what the RFC says about a head + DATA sequence: (head malformed reason, body mismatch)
@@ -407,7 +419,7 @@ fn expectation(kind: Kind, c: &Case, body_exempt: bool) -> (Option<String>, bool
     }
     if head.is_none() && !body_exempt {
         if let Ok(Some(cl)) = content_length(&c.fields) {
-            let total: usize = c.data.iter().map(|(l, _)| *l).sum();
+            let total: usize = data_total(&c.data);
             if total as u64 != cl {
                 body_bad = true;
             }
@@ -481,7 +493,7 @@ pub fn run_request_case_split(c: &Case, ext_connect: bool, split: Option<usize>,
             }
             let mut body = t.accepted[i].body.take().unwrap();
             let (n, end) = read_body(&mut body, &mut panics);
-            let total: usize = c.data.iter().map(|(l, _)| *l).sum();
+            let total: usize = data_total(&c.data);
             if body_bad {
                 verdict = "body-mismatch".into();
                 match end {
@@ -579,7 +591,7 @@ pub fn run_client_case(c: &Case, mode: ClientMode, verbose: bool) -> CaseResult 
             let exempt = mode == ClientMode::HeadResponse || status == "204" || status == "304";
             let is_interim = malformed(Kind::Response, &c.fields).is_none() && status.starts_with('1');
             let (head_bad, mut body_bad) = expectation(Kind::Response, c, exempt);
-            if mode == ClientMode::HeadResponse && c.data.iter().map(|(l, _)| *l).sum::<usize>() > 0 {
+            if mode == ClientMode::HeadResponse && data_total(&c.data) > 0 {
                 // a response to HEAD never has content
                 body_bad = true;
             }
@@ -612,7 +624,7 @@ pub fn run_client_case(c: &Case, mode: ClientMode, verbose: bool) -> CaseResult 
                     }
                     let mut body = resp.into_body();
                     let (n, end) = read_body(&mut body, &mut panics);
-                    let total: usize = c.data.iter().map(|(l, _)| *l).sum();
+                    let total: usize = data_total(&c.data);
                     if body_bad {
                         verdict = "body-mismatch".into();
                         match end {
@@ -917,7 +929,7 @@ pub fn run(ctx: &Ctx) -> Outcome {
         if !r.vios.is_empty() {
             let mut vs = vios.lock().unwrap();
             for (rule, sig, what) in r.vios {
-                vs.add(Violation { rule, signature: format!("{}:{}", mode, sig), what, replay: json!({"harness": harness, "mode": mode, "label": c.label, "fields": c.fields, "data": c.data.iter().map(|(l, e)| json!([l, e])).collect::<Vec<_>>()}) });
+                vs.add(Violation { rule, signature: format!("{}:{}", mode, sig), what, replay: json!({"harness": harness, "mode": mode, "label": c.label, "fields": c.fields, "data": c.data.iter().map(|(l, e)| json!([if *l == TRAILERS { -1i64 } else { *l as i64 }, e])).collect::<Vec<_>>()}) });
             }
         }
     };
@@ -991,7 +1003,7 @@ pub fn replay(v: &Value) -> bool {
         return !vs.map.is_empty();
     }
     let fields: Fields = v["fields"].as_array().unwrap().iter().map(|p| (p[0].as_str().unwrap().to_string(), p[1].as_str().unwrap().to_string())).collect();
-    let data: Vec<(usize, bool)> = v["data"].as_array().map(|a| a.iter().map(|p| (p[0].as_u64().unwrap() as usize, p[1].as_bool().unwrap())).collect()).unwrap_or_default();
+    let data: Vec<(usize, bool)> = v["data"].as_array().map(|a| a.iter().map(|p| (if p[0].as_i64() == Some(-1) { TRAILERS } else { p[0].as_u64().unwrap() as usize }, p[1].as_bool().unwrap())).collect()).unwrap_or_default();
     let c = Case { label: v["label"].as_str().unwrap_or("").to_string(), fields, data };
     let mode = v["mode"].as_str().unwrap_or("");
     let r = match mode {
